@@ -84,7 +84,13 @@ def recursion_bounded(ctx):
             for a in t["args"]:
                 at |= b.prov.operand_atoms(a)
             # some argument passed down derives from the incoming chain and from the current id
-            ok_arg = any((anc_params - id_params) & b.prov.operand_atoms(a) and (id_only & b.prov.operand_atoms(a)) for a in t["args"])
+            # the argument passed in the position of the ancestor-chain parameter
+            ok_arg = False
+            for (_, i) in (anc_params - id_params):
+                if i - 1 < len(t["args"]):
+                    aat = b.prov.operand_atoms(t["args"][i - 1])
+                    if ("param", i) in aat and (id_only & aat):
+                        ok_arg = True
             if not (anc_params and id_only and ok_arg):
                 chain_ok = False
         ancestor = errs_ok and chain_ok and all(rb in Gf for rb in recs)
@@ -302,7 +308,7 @@ def _field_enum_label(p):
 
 def loader_fns(ctx):
     """the function that reads and validates one project file: calls serde_yaml::from_reader"""
-    out = [b for b in ctx.f.user_bodies() if any(t["callee"]["base"].startswith("serde_yaml::") for _, t in b.calls())]
+    out = [b for b in ctx.f.user_bodies() if any(re.match(r"serde_yaml::(de::)?from_(reader|str|slice)$", t["callee"]["base"]) for _, t in b.calls())]
     ctx.need(out, "project loader (calls serde_yaml)")
     return out
 
